@@ -85,3 +85,27 @@ CONTRACTS["programs:ProgramSet.__init__#one_parameter_row"] = dict(
     stubs=dict(_row, **{"spec['targetable'] == 'y'": "TARGETABLE"}),
     ensures=[("C16.exactly_the_targetable_parameters_are_listed_with_label_and_type", "('p' in self.pars) == TARGETABLE and implies(TARGETABLE, self.pars['p'] == {'label': 'Parameter p', 'type': 'default'})")],
     defined_props=["C16", "C18"])
+
+
+# ---- ProgramSet._get_code_name (what remove_pop / remove_comp / remove_par / remove_program resolve their argument with): a code name is
+# returned as it is, a label is mapped to the code name of the population / compartment / parameter / program carrying it, anything else is refused
+def _env_code_name(name):
+    def make(it):
+        from pyvc.interp import PyObjV
+        from pyvc import source
+
+        pm = source.load("programs")
+        self = PyObjV("ProgramSet", pm, {"name": "ps", "pops": {"adults": {"label": "Adults", "type": "default"}}, "comps": {"sus": {"label": "Susceptible", "type": "default", "non_targetable": False}},
+                                         "pars": {"rate": {"label": "Some rate", "type": "default"}}, "programs": {"prog": PyObjV("Program", pm, {"name": "prog", "label": "A program"})}})
+        return {"self": self, "name": name}
+
+    return make
+
+
+for _tag, _name, _want in (("code_name_of_a_population", "adults", "adults"), ("code_name_of_a_program", "prog", "prog"), ("label_of_a_population", "Adults", "adults"), ("label_of_a_compartment", "Susceptible", "sus"),
+                           ("label_of_a_parameter", "Some rate", "rate"), ("label_of_a_program", "A program", "prog"), ("unknown", "Nothing", None)):
+    CONTRACTS["programs:ProgramSet._get_code_name#%s" % _tag] = dict(
+        schema=schema, make_env=_env_code_name(_name),
+        raises=({} if _want else {"Exception": "True"}), raises_props=["C16", "C18"],
+        ensures=([("C16.a_code_name_or_label_resolves_to_the_code_name", "result == %r" % _want)] if _want else []),
+        defined_props=["C16", "C18"])
